@@ -18,6 +18,7 @@ pub fn run(mode: &str, a: &Args) -> i32 {
     match mode {
         "gen" => generate(a),
         "worker" => worker(),
+        "deep_dump" => deep_dump(),
         _ => 2,
     }
 }
@@ -48,6 +49,17 @@ impl<R: Read> Read for OneByte<R> {
     }
 }
 
+struct FixedFmt(&'static str);
+impl serde_saphyr::MessageFormatter for FixedFmt {
+    fn format_message<'a>(&self, _err: &'a Error) -> std::borrow::Cow<'a, str> { std::borrow::Cow::Borrowed(self.0) }
+}
+struct WrapFmt;
+impl serde_saphyr::MessageFormatter for WrapFmt {
+    fn format_message<'a>(&self, err: &'a Error) -> std::borrow::Cow<'a, str> {
+        std::borrow::Cow::Owned(format!("«{}»", DefaultMessageFormatter.format_message(err)))
+    }
+}
+
 fn render_all(e: &Error) -> usize {
     let mut n = 0;
     n += e.to_string().len();
@@ -57,6 +69,13 @@ fn render_all(e: &Error) -> usize {
     let dev: DeveloperMessageFormatter = DefaultMessageFormatter;
     n += e.render_with_formatter(&dev).len();
     n += e.render_with_formatter(&UserMessageFormatter).len();
+    // user-supplied formatters: messages shorter than any suffix the renderer may want to strip, empty, non-ASCII,
+    // multi-line, and one that repeats the built-in text
+    n += e.render_with_formatter(&FixedFmt("")).len();
+    n += e.render_with_formatter(&FixedFmt("é")).len();
+    n += e.render_with_formatter(&FixedFmt("日本語のメッセージ (defined at")).len();
+    n += e.render_with_formatter(&FixedFmt("two\nlines\r\n")).len();
+    n += e.render_with_formatter(&WrapFmt).len();
     let _ = e.location();
     let _ = e.locations();
     n
@@ -72,6 +91,51 @@ fn targets() -> Vec<Ty> {
     ]
 }
 
+/// a derived recursive target for the stack probes
+#[derive(serde::Deserialize)]
+#[allow(dead_code)]
+#[serde(untagged)]
+enum Nest { Seq(Vec<Nest>), Map(std::collections::BTreeMap<String, Nest>), Leaf(Option<String>) }
+#[derive(serde::Deserialize)]
+#[allow(dead_code)]
+struct NestS { #[serde(default)] a: Option<Box<NestS>>, #[serde(default)] x: Option<Vec<NestS>> }
+
+/// The pathological deep / wide inputs (nesting at the default budget boundary): every entry point on an 8 MiB stack
+/// with the targets real programs use — `IgnoredAny`, `serde_json::Value`, derived recursive types. (The run-time type
+/// descriptions of the harness put a much larger visitor frame on every level than derived code does; they are used for
+/// all other inputs.)
+fn exercise_deep(bytes: &[u8]) -> String {
+    use serde::de::IgnoredAny;
+    fn all<T: serde::de::DeserializeOwned>(name: &str, bytes: &[u8], opts: &serde_saphyr::Options) -> Option<String> {
+        let tag = |ep: &str| Some(format!("panic {ep} deep {name}"));
+        let r = catch(|| serde_saphyr::from_slice_with_options::<T>(bytes, opts.clone()).map(|_| ()).map_err(|e| render_all(&e)));
+        if r.is_err() { return tag("slice"); }
+        let r = catch(|| serde_saphyr::from_reader_with_options::<_, T>(std::io::Cursor::new(bytes.to_vec()), opts.clone()).map(|_| ()).map_err(|e| render_all(&e)));
+        if r.is_err() { return tag("reader"); }
+        if let Ok(text) = std::str::from_utf8(bytes) {
+            let r = catch(|| serde_saphyr::from_multiple_with_options::<T>(text, opts.clone()).map(|v| v.len()).map_err(|e| render_all(&e)));
+            if r.is_err() { return tag("multi"); }
+        }
+        let mut rd = std::io::Cursor::new(bytes.to_vec());
+        let r = catch(|| serde_saphyr::read_with_options::<_, T>(&mut rd, opts.clone()).take(10_000).map(|x| x.map(|_| ()).map_err(|e| render_all(&e))).count());
+        if r.is_err() { return tag("iter"); }
+        None
+    }
+    let cfgs = [
+        Cfg { dup: 0, legacy_octal: false, strict_bool: false, ignore_binary: false, no_schema: false, budget: Some(Budget::default()), limits: AliasLimits::default() },
+        Cfg { dup: 1, legacy_octal: true, strict_bool: true, ignore_binary: true, no_schema: true, budget: Some(Budget::default()), limits: AliasLimits { max_total_replayed_events: 3, max_replay_stack_depth: 1, max_alias_expansions_per_anchor: 2 } },
+    ];
+    for cfg in cfgs.iter() {
+        let mut opts = cfg.options();
+        opts.with_snippet = true;
+        if let Some(t) = all::<IgnoredAny>("IgnoredAny", bytes, &opts) { return t; }
+        if let Some(t) = all::<serde_json::Value>("Value", bytes, &opts) { return t; }
+        if let Some(t) = all::<Nest>("Nest", bytes, &opts) { return t; }
+        if let Some(t) = all::<NestS>("NestS", bytes, &opts) { return t; }
+    }
+    "ok".into()
+}
+
 /// run every entry point on one input; returns "ok" or "panic <entry>"
 fn exercise(bytes: &[u8], reader_too: bool) -> String {
     let cfgs = [
@@ -84,6 +148,7 @@ fn exercise(bytes: &[u8], reader_too: bool) -> String {
             opts.with_snippet = true;
             if ci == 1 { opts.crop_radius = 1; }
             let tag = |ep: &str| format!("panic {ep} cfg{ci} ty{ti}");
+            if std::env::var("VERIF_TRACE").is_ok() { eprintln!("exercise cfg{ci} ty{ti}"); }
             // slice (covers invalid UTF-8) and str
             let r = catch(|| serde_saphyr::with_deserializer_from_slice_with_options(bytes, opts.clone(), |de| Seed(ty).deserialize(de)).map(|_| ()).map_err(|e| render_all(&e)));
             if r.is_err() { return tag("slice"); }
@@ -139,11 +204,13 @@ fn worker() -> i32 {
         let Ok(line) = line else { break };
         let mut parts = line.split(' ');
         let idx = parts.next().unwrap_or("0").to_string();
-        let reader_too = parts.next() == Some("r");
+        let marker = parts.next().unwrap_or("s").to_string();
+        let reader_too = marker == "r" || marker == "d";
+        let deep = marker == "d";
         let bytes = unhex(parts.next().unwrap_or("x")).unwrap_or_default();
         // run on a thread with an 8 MiB stack: the property's stack clause
         let b2 = bytes.clone();
-        let h = std::thread::Builder::new().stack_size(8 << 20).spawn(move || exercise(&b2, reader_too)).unwrap();
+        let h = std::thread::Builder::new().stack_size(8 << 20).spawn(move || if deep { exercise_deep(&b2) } else { exercise(&b2, reader_too) }).unwrap();
         let status = h.join().unwrap_or_else(|_| "panic thread".into());
         let _ = writeln!(out, "done {idx} {status}");
         let _ = out.flush();
@@ -158,6 +225,12 @@ pub fn in_known_hang_class(bytes: &[u8]) -> bool {
     let text = text.strip_prefix('\u{feff}').unwrap_or(text);
     let last = text.rsplit(['\n', '\r']).next().unwrap_or("");
     last.starts_with('%')
+}
+
+/// `total deep_dump`: the deep inputs as worker lines (debugging aid)
+fn deep_dump() -> i32 {
+    for (i, (name, b)) in deep_inputs().iter().enumerate() { eprintln!("{i} {name}"); println!("{i} r {}", hex_bytes(b)); }
+    0
 }
 
 fn deep_inputs() -> Vec<(String, Vec<u8>)> {
@@ -274,6 +347,7 @@ fn generate(a: &Args) -> i32 {
     let mut fails: Vec<serde_json::Value> = Vec::new();
     let chunks: Vec<Vec<usize>> = (0..nworkers).map(|w| (0..inputs.len()).filter(|i| i % nworkers == w).collect()).collect();
     let inputs_ref = &inputs;
+    let n_short_ref = n_short;
     let results: Vec<Vec<(usize, String)>> = std::thread::scope(|sc| {
         let handles: Vec<_> = chunks.iter().map(|chunk| {
             let exe = exe.clone();
@@ -293,7 +367,7 @@ fn generate(a: &Args) -> i32 {
                         let idx = chunk[pos];
                         let bytes = &inputs_ref[idx];
                         let reader_too = true; // the former hanging class (fixed by bfd6267) is swept like every other input
-                        if writeln!(cin, "{} {} {}", idx, if reader_too { "r" } else { "s" }, hex_bytes(bytes)).is_err() { out.push((idx, "abort".into())); pos += 1; break; }
+                        if writeln!(cin, "{} {} {}", idx, if idx >= n_short_ref { "d" } else if reader_too { "r" } else { "s" }, hex_bytes(bytes)).is_err() { out.push((idx, "abort".into())); pos += 1; break; }
                         let _ = cin.flush();
                         let t0 = Instant::now();
                         match rx.recv_timeout(per_case) {
